@@ -144,6 +144,16 @@ def check_c12(prop, tier, seed):
             v.tool_error('Params deviation %s not detected' % d)
         else:
             v.extra.setdefault('model_negative_control', []).append('%s violates %s' % (d, r2.invariant_violated))
+    # histories of any length: IndInv of ParamsApa.tla (which implies both invariants) holds initially and is preserved by
+    # every step of the design (Apalache, symbolic); it is not inductive when the checkout synchronisation is left out
+    apa = [('initial', 'ConstInit', 'Init', 'IndInv', 0, 'ok'), ('step', 'ConstInit', 'IndInit', 'IndInv', 1, 'ok'),
+           ('implies_properties', 'ConstInit', 'IndInit', 'Props', 0, 'ok'),
+           ('negative_control_no_sync', 'ConstInitNoSync', 'IndInit', 'IndInv', 1, 'violated')]
+    for name, cinit, init, inv, length, expect in apa:
+        got = tlc.run_apalache('ParamsApa', cinit, init, inv, length, timeout=900)
+        v.extra.setdefault('apalache_inductive_invariant', []).append({'check': name, 'result': got})
+        if got != expect:
+            v.tool_error('Apalache %s: expected %s, got %s' % (name, expect, got))
     n = {'quick': 500, 'thorough': 8000}[tier]
     res = tlc.run_tlc('Gen_Params', 'Gen_Params.cfg', workers=1, simulate=n * 3, depth=13, seed=seed, timeout=1200)
     if res.rc != 0:
